@@ -312,3 +312,44 @@ def rule_enrich_width(model: Model, short: str):
         else:
             obs.append(Ob("ENRICH-WIDTH", k, ERROR, model.where(f, width), norm(width), "padding width expression not in a recognised form"))
     return obs
+
+
+# --------------------------------------------------------------------------- SCALE-FREE
+
+def rule_scale_free(model: Model, short: str):
+    """A norm of the data (an iterate, an interface, a residual) is compared with zero or with another data-dependent quantity, never with
+    a fixed non-zero number: the operands may have any magnitude (x*y of two tensors of norm 1e-10 has norm 1e-20), so `norm > 1e-14` treats
+    a perfectly valid small tensor as zero.  One obligation per comparison in which a norm-defined local takes part."""
+    f = model.func(short)
+    obs = []
+    norm_vars = set()
+    for n in ast.walk(f.node):
+        if isinstance(n, ast.Assign) and len(n.targets) == 1 and isinstance(n.targets[0], ast.Name) and _is_norm_call(n.value):
+            norm_vars.add(n.targets[0].id)
+
+    def is_norm(e):
+        return (isinstance(e, ast.Name) and e.id in norm_vars) or _is_norm_call(e)
+
+    def number(e):
+        if isinstance(e, ast.UnaryOp) and isinstance(e.op, (ast.USub, ast.UAdd)):
+            e = e.operand
+        return e.value if isinstance(e, ast.Constant) and isinstance(e.value, (int, float)) and not isinstance(e.value, bool) else None
+    seen = {}
+    for n in ast.walk(f.node):
+        if not (isinstance(n, ast.Compare) and len(n.ops) == 1):
+            continue
+        l, r = n.left, n.comparators[0]
+        for a, b in ((l, r), (r, l)):
+            if is_norm(a) and number(b) is not None:
+                text = norm(n)
+                c = seen.get(text, 0)
+                seen[text] = c + 1
+                k = f"{short}:SCALE-FREE:{text}:{c}"
+                if number(b) == 0:
+                    obs.append(Ob("SCALE-FREE", k, OK, model.where(f, n), text, "a norm is only tested against zero"))
+                else:
+                    obs.append(Ob("SCALE-FREE", k, VIOLATED, model.where(f, n), text,
+                                  f"{short}: `{text}` compares the norm `{norm(a)}` of run-time data with the fixed number {number(b)!r}: operands of small "
+                                  "magnitude (all entries scaled by 1e-10, a valid input) fall below it and are treated as zero - the convergence measure is "
+                                  "switched off / the scaling is skipped and the result is not within eps of the exact one"))
+    return obs
